@@ -35,7 +35,8 @@ Conventions of the translation (the proofs rely on them):
     `<event data>.grid_.shape`, `.get_coordinates(i, j, k)`, `.get_value_by_index(i, j, k)` -> ev_grid_shape,
     ev_get_coordinates, ev_get_value_by_index (AttributeError when the event data is not a Lattice3D);
     `self.<translated method>(...)` with positional or keyword arguments, omitted ones take the callee's default;
-  * raise Cls(<message>) is `Err Cls`; messages, docstrings and type annotations are not translated.
+  * raise Cls(<message>) is `Err Cls`; messages, docstrings and type annotations are not translated; `pass` is nothing;
+    None / an int literal given for an Optional[int] parameter of a translated method is `None` / `Some k`.
 Oracles (Section variables of the generated file): upow, uatan2, ucos, usin; kis0 is the zero test of the carrier.
 Pinned textually (normalised with ast.unparse, compared with the copy below, fail-closed) - these are methods of
 ANOTHER class whose meaning is fixed in EccRt.v (lat_get_value, lat_get_coordinates, lat_is_valid_index,
@@ -403,7 +404,13 @@ class Translator:
         parts = [X(env["self"].name, SELF)]
         for p, ty in sig["params"]:
             if p in given:
-                x = self.E(given[p], env)
+                g = given[p]
+                if ty == OINT and isinstance(g, ast.Constant) and g.value is None:
+                    x = X("(@None Z)", OINT)
+                elif ty == OINT and isinstance(g, ast.Constant) and isinstance(g.value, int) and not isinstance(g.value, bool):
+                    x = X(f"(Some {z_lit(g.value)})", OINT)
+                else:
+                    x = self.E(g, env)
                 if x.ty != ty:
                     self.err(f"argument {p} of {name}: {x.ty}, expected {ty}", node)
             elif p in sig["defaults"]:
@@ -510,6 +517,8 @@ class Translator:
         def cont(env2):
             return self.S(rest, env2, k, in_loop)
         if isinstance(st, ast.Expr) and isinstance(st.value, ast.Constant) and isinstance(st.value.value, str):
+            return cont(env)
+        if isinstance(st, ast.Pass):
             return cont(env)
         if isinstance(st, ast.Raise):
             if rest:
